@@ -4,10 +4,13 @@ set -e
 cd "$(dirname "$0")"
 export GOFLAGS=-mod=mod GOPROXY=off GOTOOLCHAIN=auto
 unset GOSUMDB || true
-cp /repo/go.sum harness/go.sum
+REPO="${VERIF_REPO:-/repo}"
+cp "$REPO/go.sum" harness/go.sum
 mkdir -p harness/bin evidence replays .work
-( cd harness && go build -o bin/factgen ./cmd/factgen && for d in cmd/c*; do go build -tags verif -o bin/$(basename $d) ./$d; done )
+MODFILE=""
+if [ "$REPO" != "/repo" ]; then mkdir -p harness/.gomod; sed "s#=> /repo#=> $REPO#" harness/go.mod > harness/.gomod/setup.mod; cp "$REPO/go.sum" harness/.gomod/setup.sum; MODFILE="-modfile=$PWD/harness/.gomod/setup.mod"; fi
+( cd harness && go build $MODFILE -o bin/factgen ./cmd/factgen && for d in cmd/c*; do go build $MODFILE -tags verif -o bin/$(basename $d) ./$d; done )
 mkdir -p lean/Gsd/Generated
-harness/bin/factgen /repo > lean/Gsd/Generated/Facts.lean
+harness/bin/factgen "$REPO" > lean/Gsd/Generated/Facts.lean
 ( cd lean && lake build Gsd gsdmodel )
 echo setup done
